@@ -105,6 +105,14 @@ CHECKS["C14"] = dict(
     note=NOTE_COMMON + "Oracle: CSS specificity then sheet order. One known finding (two class rules on one element), see known_findings.json. Outside: rules selecting the "
          "root svg, unsupported selector syntaxes, !important, deeper nesting.")
 
+CHECKS["C20"] = dict(
+    text="Real _write_node/string_xml/write_xml (plain and .svgz) followed by the real SVG.parse, with every number symbolic (tags cross str(), %f and expat): trees "
+         "built through the constructors (every shape kind x transform class incl. reflection/general matrix/skew/non-uniform scale x paint x viewBox x group, also "
+         "reified first, also with exact-zero attributes) and the parsed documents of the C03 family (reify True/False); proved per path: output is well-formed XML, "
+         "same shapes in the same order, equal absolute defining points, fill/stroke value incl. alpha, stroke width, ids, and a stable second generation.",
+    ref="DESIGN.md 4/C20",
+    note=NOTE_COMMON + "Outside: six-decimal precision of written matrices and other C-level formatting, images with pixel data, text.")
+
 NOT_APPLICABLE = {
 }
 
